@@ -47,6 +47,15 @@ def public_bytes(case):
     return pub
 
 
+def control_bytes(f, comp, key):
+    """everything public of the file, serialised by the model with the secret component's content replaced by a constant"""
+    comps = []
+    for c in f.components:
+        blob = bytes([0xA5]) * len(c.blob) if c is comp else bytes(c.blob)
+        comps.append(dict(desc=list(c.description.items()), blob=blob, actual_len=c.actual_len, enc=bool(c.encrypt_by_session_key)))
+    return M.bf3_binary(comps, key)
+
+
 def _build(case):
     """-> (file object to write (Bf3File or Bec2File), writer kwargs/args, content bytes, declared len, key)"""
     key = case["key"]
@@ -123,8 +132,20 @@ def check(case, rec):
             parsed[idx]["stored"][:32].hex(), want_ct[:32].hex()))
     if parsed[idx]["actual_len"] != declared:
         raise Violation("declared length %d stored as %d" % (declared, parsed[idx]["actual_len"]))
-    # (c) needles
-    pub = public_bytes(case)
+    # (c) needles.  A window of the secret content is a needle only if it does NOT also occur in the CONTROL file: the same file
+    # serialised by the independent model with the encrypted content replaced by a constant - everything public (directory framing,
+    # tag TLVs, plain payloads, header) is in the control, so an occurrence in the real file can only stem from the secret content.
+    ctl_comps = []
+    for i, pc in enumerate(parsed):
+        if i == idx:
+            ctl_comps.append(dict(desc=pc["desc"], blob=bytes([0xA5]) * len(content), actual_len=pc["actual_len"], enc=True))
+        else:
+            ctl_comps.append(dict(desc=pc["desc"], blob=pc["blob"] if not pc["enc"] else pc["blob"], actual_len=pc["actual_len"], enc=pc["enc"]))
+    if framing == "bec2":
+        control = binary[:pos] + M.body(ctl_comps, pos, key)
+    else:
+        control = M.bf3_binary(ctl_comps, key)
+    pub = public_bytes(case) + b"|" + control
     for name, sec in secrets:
         if sec in binary and sec not in pub:
             raise Violation("%s appears in clear in the written file" % name)
@@ -215,7 +236,7 @@ def check_cipher_failure(case, rec):
         if parsed[idx]["stored"] != ossl.cbc_encrypt(key, ossl.zeropad(content)):
             raise Violation("after a failed write attempt (cipher %s), writing the SAME component again with a working cipher stores %s.. instead of the ciphertext (plaintext starts %s)" % (
                 mode, parsed[idx]["stored"][:24].hex(), content[:24].hex()))
-        for w in needles_of(content, public_bytes(case)):
+        for w in needles_of(content, public_bytes(case) + b"|" + control_bytes(f, comp, key)):
             if w in b2:
                 raise Violation("retry after cipher failure: plaintext window %s written in clear" % w.hex())
     out = s.getvalue()
@@ -223,7 +244,7 @@ def check_cipher_failure(case, rec):
         binary = bytes.fromhex("".join(out.split("\n\n", 1)[-1].split())) if out else b""
     except ValueError:
         binary = out.encode()
-    leaked = [w for w in needles_of(content, public_bytes(case)) if w in binary]
+    leaked = [w for w in needles_of(content, public_bytes(case) + b"|" + control_bytes(f, comp, key)) if w in binary] if raised is not None else []
     if leaked:
         raise Violation("cipher %s: plaintext window %s was written to the stream" % (mode, leaked[0].hex()))
     if mode == "unregistered" and raised is None:
